@@ -17,6 +17,7 @@ class FCfg:
         self.refs = True          # specification / abstract_origin chains
         self.import_compile_units = True
         self.line_tables = True
+        self.type_units = 0.25    # chance of DWARF 5 type units (and, rarely, a skeleton unit) among the units
         self.long_chains = 0.0    # chance of an extra unit holding one chain of 15-40 links (C06 sets it)
         self.bulk = 0.2           # chance of a unit padded with a long string (offsets beyond 0x400 / 0x10000)
         self.versions = (2, 3, 4, 5)
@@ -142,6 +143,8 @@ class ForestGen:
 
         def make_unit(kind):
             version = self.r.choice(cfg.versions)
+            if kind in ("type", "skeleton"):
+                version = 5          # DWARF 5 keeps type units (and skeleton units) in .debug_info
             unit_dies = []
             root_attrs = []
             if self.chance(0.8):
@@ -152,13 +155,21 @@ class ForestGen:
                 n = self.r.choice([300, 1100, 1100, 5000]) if self.r.random() < 0.9 else 66000
                 root_attrs.append(Attr(AT["producer"], FORM["string"], b"p" * n))
                 self.label("bulky-unit")
-            root = Die(TAG["compile_unit" if kind == "compile" else "partial_unit"], root_attrs)
+            root = Die(TAG[{"compile": "compile_unit", "partial": "partial_unit", "type": "type_unit", "skeleton": "skeleton_unit"}[kind]], root_attrs)
+            if kind in ("type", "skeleton"):
+                self.label(kind + "-unit")
             shape = self.r.randint(0, 9)
+            if kind == "skeleton":
+                shape = 0            # a skeleton unit is a lone root
+            elif kind == "type" and shape == 0:
+                shape = 1            # a type unit holds at least the type
             if shape == 0:
                 self.label("empty-unit")
                 root.has_children = self.chance(0.3)
             else:
                 k = self.r.randint(1, cfg.max_arity + 1)
+                if kind == "type" and budget[0] <= 0:
+                    budget[0] = 1        # the type a type unit is about must be there
                 for _ in range(k):
                     if budget[0] <= 0:
                         break
@@ -169,8 +180,8 @@ class ForestGen:
             importable = list(partial_units)
             if cfg.import_compile_units and self.chance(0.2):
                 # DW_AT_import may name a "normal or partial compilation unit" (DWARF 4, 3.1.2)
-                importable += [x for x in units if not x.partial]
-            if importable and (kind == "compile" or self.chance(0.5)):
+                importable += [x for x in units if x.root.tag == TAG["compile_unit"]]
+            if importable and kind in ("compile", "partial") and (kind == "compile" or self.chance(0.5)):
                 for pu in self.r.sample(importable, self.r.randint(1, min(2, len(importable)))):
                     if not pu.partial:
                         self.label("import-of-compile-unit")
@@ -197,6 +208,10 @@ class ForestGen:
             return u
 
         order = ["partial"] * npartial + ["compile"] * nunits
+        if 5 in cfg.versions and self.chance(cfg.type_units):
+            order += ["type"] * self.r.randint(1, 2)
+            if self.chance(0.2):
+                order.append("skeleton")
         # partial units first so that imports are acyclic; shuffle compile units among them
         # but only import units that already exist
         seq = []
